@@ -31,29 +31,39 @@ def run(F, rep, tier):
            or ("call:hello_head" in f.origins(c["b"], through_calls=PASS_THROUGH) and "argname:head" in f.origins(c["a"], through_calls=()))]
     eq = pat.one(rep, eqs, "hello_head == head comparison", f)
     nss = [x for x in f.discr_switches("StorageError") if "NoSuchStorage" in x[1]]
-    n_false = n_true = n_dyn = 0
+    # Each successful return is classified by what it answers and on which edge it sits. The answer may be a
+    # constant on an edge of a test, or computed; the shapes `x.is_none()` and `match x { Some(_) => false, None => true }`
+    # are the same decision.
+    gle = f.outcome_edges(gl)
+    some_t = gle["Some"][1] if "Some" in gle else None
+    none_t = gle["None"][1] if "None" in gle else None
+    n_graph = 0
     for s in oks:
         o = s.operands()[0]
         if o.const is not None:
             if o.val == 0:
-                n_false += 1
-                rep.check(eq is not None and f.dominates(eq["eq"], s.bb), "should_sync|false-only-when-same-head", "K2 guarded-by",
-                          "Ok(false) is returned only on the `hello_head == head` edge",
-                          "should_sync_on_hello returns false without the advertised head being our own hello head", f.site(s.line))
+                on_same = eq is not None and f.dominates(eq["eq"], s.bb)
+                on_present = some_t is not None and f.dominates(some_t, s.bb)
+                n_graph += 1 if on_present else 0
+                rep.check(on_same or on_present, "should_sync|false-only-when-same-head", "K2 guarded-by",
+                          "Ok(false) is returned only on the `hello_head == head` edge or where get_location(head) found the command",
+                          "should_sync_on_hello returns false although the advertised head is neither our own hello head nor a command found in the committed graph", f.site(s.line))
             else:
-                n_true += 1
-                ok = bool(nss) and f.dominates(nss[0][1]["NoSuchStorage"], s.bb)
-                rep.check(ok, "should_sync|true-when-graph-missing", "K2 guarded-by", "Ok(true) on the NoSuchStorage arm", site=f.site(s.line))
+                on_missing = bool(nss) and f.dominates(nss[0][1]["NoSuchStorage"], s.bb)
+                on_absent = none_t is not None and f.dominates(none_t, s.bb)
+                n_graph += 1 if on_absent else 0
+                rep.check(on_missing or on_absent, "should_sync|true-when-graph-missing", "K2 guarded-by",
+                          "Ok(true) on the NoSuchStorage arm or where get_location(head) found nothing", site=f.site(s.line))
         else:
-            n_dyn += 1
             org = f.origins(o, through_calls=PASS_THROUGH + ("Option::is_none",))
-            isn = [c for c in f.calls if c.is_("Option::is_none")]
             ok = "call:is_none" in org and "call:get_location" in org and "call:is_some" not in org and "call:not" not in org
-            ok = ok and "argname:head" in f.origins(gl.args[1], through_calls=())
+            n_graph += 1 if ok else 0
             rep.check(ok, "should_sync|else-location-absent", "K6 provenance",
                       "otherwise the answer is storage.get_location(head).is_none() (sync unless the command is already committed here)",
                       "should_sync_on_hello's fallback answer is not `get_location(head).is_none()`", f.site(s.line))
-    rep.floor("should_sync_on_hello outcomes (false/true/dynamic)", min(n_false, n_true, n_dyn), 1)
+    rep.check(n_graph >= 1 and "argname:head" in f.origins(gl.args[1], through_calls=()), "should_sync|consults-committed-graph", "K6 provenance",
+              "when the graph exists and the heads differ, the answer depends on get_location(head)",
+              "should_sync_on_hello no longer decides by looking the advertised head up in the committed graph", f.site())
     rep.check(bool(nss), "should_sync|missing-graph-arm", "K2 guarded-by", "get_storage's NoSuchStorage error is matched explicitly", site=f.site())
     # R2
     h = F.fn(C + "hello_head")
